@@ -194,3 +194,84 @@ def paths(tables, mother, aliases=None):
 
 def tree_key(t):
     return repr(t) if not isinstance(t, str) else "s:" + t
+
+
+# ---------------------------------------------------------------------------------------------
+# C07: global declarations
+# ---------------------------------------------------------------------------------------------
+
+def _int_or_float(text):
+    try:
+        return int(text)
+    except ValueError:
+        return float(text)
+
+
+def _is_number(text):
+    try:
+        float(text)
+        return True
+    except ValueError:
+        return False
+
+
+def reference_width_gev(evtgen_name):
+    """Reference width of a particle in GeV from the particle package, by PDG ID."""
+    from particle import Particle
+    from particle.converters import EvtGenName2PDGIDBiMap as B
+
+    return Particle.from_pdgid(int(B._to_map[evtgen_name])).width / 1000.0
+
+
+def declarations(f):
+    """The eleven declaration queries of C07, later declarations winning."""
+    st = f["stmts"]
+    out = {}
+    out["dict_aliases"] = {s["a"]: s["p"] for s in st if s["k"] == "alias"}
+    out["dict_charge_conjugates"] = {s["a"]: s["b"] for s in st if s["k"] == "chargeconj"}
+    out["dict_definitions"] = {s["n"]: float(s["v"]) for s in st if s["k"] == "define"}
+    out["dict_decays2copy"] = {s["new"]: s["old"] for s in st if s["k"] == "copydecay"}
+    out["list_charge_conjugate_decays"] = sorted(s["x"] for s in st if s["k"] == "cdecay")
+    aliases = out["dict_aliases"]
+    props = {}
+    for s in st:
+        if s["k"] == "particle":
+            if s.get("width") is not None:
+                w = float(s["width"])
+            else:
+                w = ("ref", aliases.get(s["n"], s["n"]))
+            props[s["n"]] = {"mass": float(s["mass"]), "width": w}
+    out["get_particle_property_definitions"] = props
+    py = {}
+    for s in st:
+        if s["k"] == "pythia":
+            v = float(s["val"]) if _is_number(s["val"]) else s["val"]
+            py.setdefault(s["cmd"], {})[f"{s['module']}:{s['param']}"] = v
+    out["dict_pythia_definitions"] = py
+    js = {}
+    for s in st:
+        if s["k"] == "jetset":
+            nm, idx = s["name"][:-1].split("(")
+            js.setdefault(nm, {})[int(idx)] = _int_or_float(s["v"])
+    out["dict_jetset_definitions"] = js
+    ls = {}
+    repeated = False
+    for s in st:
+        if s["k"] == "ls":
+            key, val, p = "lineshape", s["kind"], s["p"]
+        elif s["k"] == "bw":
+            key, val, p = "BlattWeisskopf", float(s["v"]), s["p"]
+        elif s["k"] == "masslimit":
+            key, val, p = s["kind"], float(s["v"]), s["p"]
+        elif s["k"] == "incfactor":
+            key, val, p = s["kind"], s["yn"] == "yes", s["p"]
+        else:
+            continue
+        if key in ls.setdefault(p, {}):
+            repeated = True
+        ls[p][key] = val
+    out["dict_lineshape_settings"] = "raises" if repeated else ls
+    out["list_lineshapePW_definitions"] = [([s["m"], s["d1"], s["d2"]], int(s["i"])) for s in st if s["k"] == "lspw"]
+    flags = [s["yes"] for s in st if s["k"] == "photos"]
+    out["global_photos_flag"] = 1 if (flags and flags[-1]) else 0
+    return out
